@@ -230,7 +230,7 @@ def _returns_flag(f: FuncInfo) -> bool:
     if isinstance(f.node, ast.Lambda):
         return False
     ann = norm(f.node.returns) if f.node.returns is not None else ""
-    if ann in ("bool", "int") or (ann.startswith("tuple[") and ann.rstrip("]").endswith("int")):
+    if ann in ("bool", "int") or (ann.startswith("tuple[") and ann.rstrip("]").endswith(("int", "bool"))):
         return True
     return any(isinstance(r.value, ast.Constant) and isinstance(r.value.value, bool) for r in _returns(f))
 
@@ -258,6 +258,11 @@ def _flag_vars(f: FuncInfo) -> set[str]:
             if isinstance(n, ast.Assign) and any(isinstance(t, ast.Name) and t.id in names for t in n.targets):
                 if isinstance(n.value, ast.Call) and dotted_of(n.value.func) in ("bool", "int", "len"):
                     names |= {x.id for x in ast.walk(n.value) if isinstance(x, ast.Name)} - {"bool", "int", "len"}
+                # monotone combinations: flag = flag or other / flag | other / flag + other
+                elif (isinstance(n.value, ast.BoolOp) and isinstance(n.value.op, ast.Or)) or (
+                        isinstance(n.value, ast.BinOp) and isinstance(n.value.op, (ast.BitOr, ast.Add))):
+                    ops = n.value.values if isinstance(n.value, ast.BoolOp) else [n.value.left, n.value.right]
+                    names |= {x.id for x in ops if isinstance(x, ast.Name)} - {"True", "False"}
     return names
 
 
